@@ -592,3 +592,87 @@ func c04SubsliceIndex(c *Ctx, r *Report) {
 	r.OK("R04.14", "range loops over sub-slices", "", fmt.Sprintf("%d loops over s[a:] examined", n))
 	r.Floor("R04.14", "range loops over sub-slices with a non-zero lower bound", n, 1)
 }
+
+// c05PopenFileName (R05.13): a file name reaches a shell command line only
+// through the quoting function.
+func c05PopenFileName(c *Ctx, r *Report) {
+	r.Rule("R05.13", "a file name reaches the shell quoted: in package lib, every string handed to OpenInboundHalfPipe (the command line of a --prepipe / --prepipex child) is put together from the prepipe command, constants and escapeFileNameForPopen(name) — a string parameter of the function other than the command itself never goes into the concatenation directly (a name with a space or a ; would be read as shell syntax: other files read under this FILENAME, other commands run)")
+	open := c.SSAFunc(c.LookupFunc("pkg/lib", "OpenInboundHalfPipe"))
+	esc := c.SSAFunc(c.LookupFunc("pkg/lib", "escapeFileNameForPopen"))
+	if open == nil || esc == nil {
+		r.Undecided("R05.13", "anchors", "", "OpenInboundHalfPipe / escapeFileNameForPopen not found")
+		return
+	}
+	n := 0
+	for _, fn := range c.ModuleFunctions() {
+		if fn.Blocks == nil || fn.Pkg == nil || !strings.HasSuffix(fn.Pkg.Pkg.Path(), "/pkg/lib") {
+			continue
+		}
+		for _, b := range fn.Blocks {
+			for _, in := range b.Instrs {
+				call, ok := in.(*ssa.Call)
+				if !ok || call.Call.StaticCallee() != open {
+					continue
+				}
+				n++
+				// leaves of the concatenation tree (through phis and local cells)
+				var raw []string
+				seen := map[ssa.Value]bool{}
+				var leaves func(v ssa.Value, depth int)
+				leaves = func(v ssa.Value, depth int) {
+					if seen[v] || depth > 10 {
+						return
+					}
+					seen[v] = true
+					switch x := v.(type) {
+					case *ssa.BinOp:
+						if x.Op == token.ADD {
+							leaves(x.X, depth+1)
+							leaves(x.Y, depth+1)
+							return
+						}
+					case *ssa.Phi:
+						for _, e := range x.Edges {
+							leaves(e, depth+1)
+						}
+						return
+					case *ssa.UnOp:
+						if al, ok := x.X.(*ssa.Alloc); ok && x.Op == token.MUL {
+							for _, ref := range *al.Referrers() {
+								if st, ok := ref.(*ssa.Store); ok && st.Addr == ssa.Value(al) {
+									leaves(st.Val, depth+1)
+								}
+							}
+							return
+						}
+					case *ssa.Const:
+						return
+					case *ssa.Call:
+						if x.Call.StaticCallee() == esc {
+							return
+						}
+					case *ssa.Parameter:
+						// the command itself: the parameter that also appears alone (stdin case) or first in the concatenation
+						raw = append(raw, x.Name())
+						return
+					}
+					raw = append(raw, v.Name())
+				}
+				leaves(call.Call.Args[0], 0)
+				// one raw string parameter is the prepipe command; more than one means a name went in unquoted
+				uniq := map[string]bool{}
+				for _, s := range raw {
+					uniq[s] = true
+				}
+				var names []string
+				for s := range uniq {
+					names = append(names, s)
+				}
+				sort.Strings(names)
+				r.Check(len(names) <= 1, "R05.13", SSAName(fn)+": command for OpenInboundHalfPipe", c.Rel(call.Pos()), "built from the command, constants and quoted names",
+					fmt.Sprintf("%s builds the command line from %d unquoted run-time strings (%s): besides the prepipe command itself a file name goes to the shell as it is", SSAName(fn), len(names), strings.Join(names, ", ")))
+			}
+		}
+	}
+	r.Floor("R05.13", "command lines built for prepipe children", n, 1)
+}
